@@ -1281,15 +1281,16 @@ func (g *fhGen) gen(maxLen int) fhCase {
 		d.Steps = d.Steps[:maxLen/2]
 	}
 	opPct := map[string]int{"c04": 25, "c05": 45, "c12": 25}[g.prop]
-	for len(d.Steps) < n || !fhHasInv(d.Steps) {
+	if len(d.Steps) >= n {
+		n = len(d.Steps) + 1
+	}
+	for len(d.Steps) < n {
 		k := len(d.Steps)
-		if k >= n+2 {
-			break
-		}
 		ti := rng.Intn(nt)
 		inf := infos[ti]
 		t := d.Tasks[ti]
-		if g.chance(opPct) {
+		// the last step of a history without any invocation so far is an invocation
+		if g.chance(opPct) && !(k == n-1 && !fhHasInv(d.Steps)) {
 			mt := int64(1000*k + 500)
 			switch r := rng.Intn(100); {
 			case r < 10:
